@@ -131,9 +131,12 @@ def CodecImpl.Lossless (c : CodecImpl) : Prop :=
 
 /-! ### encode_frame -/
 
-/-- `pack_bits(array.flatten())`: pydicom refuses anything but zeros and ones -/
+/-- pydicom's `pack_bits(..., pad=True)` appends a null byte when the packed length is odd -/
+def padEven (bs : List Nat) : List Nat := if bs.length % 2 = 1 then bs ++ [0] else bs
+
+/-- `pack_bits(array.flatten())`: pydicom refuses anything but zeros and ones; even length -/
 def packBits (xs : List Int) : Except ErrKind (List Nat) :=
-  if xs.all (fun v => v == 0 || v == 1) then .ok (pack (xs.map (fun v => v == 1))) else .error .value
+  if xs.all (fun v => v == 0 || v == 1) then .ok (padEven (pack (xs.map (fun v => v == 1)))) else .error .value
 
 /-- the translated decision tree applied to a frame -/
 def encodeRoute (p : Params) (x : Frame) : Except ErrKind Int :=
@@ -155,7 +158,8 @@ def isEncapsulated (ts : String) : Bool :=
 
 /-- dtype pydicom returns for (bits allocated, pixel representation) -/
 def decodedDType (bitsAllocated pixelRepresentation : Int) : Except ErrKind DType :=
-  if bitsAllocated = 8 then .ok (if pixelRepresentation = 1 then .i8 else .u8)
+  if bitsAllocated = 1 then .ok .u8
+  else if bitsAllocated = 8 then .ok (if pixelRepresentation = 1 then .i8 else .u8)
   else if bitsAllocated = 16 then .ok (if pixelRepresentation = 1 then .i16 else .u16)
   else if bitsAllocated = 32 then .ok (if pixelRepresentation = 1 then .i32 else .u32)
   else .error .value
@@ -172,7 +176,7 @@ def convertsColour (pi : String) (samples : Nat) : Bool :=
     `rows*cols*samples*bits/8` are refused; one padding byte is tolerated; longer data is outside the
     model (pydicom then guesses a number of frames) and reported as `.other`. -/
 def pydicomNative (conv : List Int → List Int) (p : Params) (rows cols samples : Nat) (bytes : List Nat) :
-    Except ErrKind (DType × List Int) := do
+    Except ErrKind (List Int) := do
   let dt ← decodedDType p.bitsAllocated p.pixelRepresentation
   let n := rows * cols * samples
   let want := n * dt.itemsize
@@ -180,22 +184,23 @@ def pydicomNative (conv : List Int → List Int) (p : Params) (rows cols samples
   else if bytes.length > want + 1 then .error .other
   else
     let vals := decodeCells dt.itemsize (p.pixelRepresentation == 1) p.bitsStored.toNat n bytes
-    .ok (dt, if convertsColour p.pi samples then conv vals else vals)
+    .ok (if convertsColour p.pi samples then conv vals else vals)
 
+/-- `decode_frame`: the values of the decoded frame in C order (shape `(rows, cols[, samples])`, dtype
+    `decodedDType`) -/
 def decodeFrame (c : CodecImpl) (conv : List Int → List Int) (p : Params) (rows cols samples : Nat)
-    (bytes : List Nat) (index : Int := 0) : Except ErrKind (DType × List Int) := do
+    (bytes : List Nat) (index : Int := 0) : Except ErrKind (List Int) := do
   let route ← decodeFrameRoute (isEncapsulated p.ts) p.bitsAllocated samples p.pi p.pixelRepresentation p.planar
   if route = 1 then do
     let (lo, hi) ← bitSlice index rows cols samples
     let bits ← slice (unpack bytes) lo hi
     -- `reshape(rows, columns[, samples])` fails unless exactly that many values are left
-    if bits.length = rows * cols * samples then .ok (.u8, bits.map (fun b => if b then 1 else 0))
+    if bits.length = rows * cols * samples then .ok (bits.map (fun b => if b then 1 else 0))
     else .error .value
   else if route = 2 then pydicomNative conv p rows cols samples bytes
   else do
-    let dt ← decodedDType p.bitsAllocated p.pixelRepresentation
     let vals ← c.dec p rows cols samples bytes
-    .ok (dt, if convertsColour p.pi samples then conv vals else vals)
+    .ok (if convertsColour p.pi samples then conv vals else vals)
 
 /-- what pydicom itself makes of the bytes as a one-frame image with 1-bit native pixel data -/
 def pydicomOneBit (rows cols samples : Nat) (bytes : List Nat) : Except ErrKind (List Int) :=
